@@ -3,8 +3,14 @@
 -/
 import CrCube.Spec.CellSpec
 import CrCube.Lemmas.Wsum
+import Mathlib.Data.List.Nodup
+import Mathlib.Data.List.Range
 
 namespace CrCube
+
+theorem validIdxs_nodup' (m : List Bool) : (validIdxs m).Nodup := by
+  unfold validIdxs
+  exact List.Nodup.filter _ List.nodup_range
 
 /-- whoever belongs to an element is eligible for it -/
 theorem Var.inElem_eligible (v : Var) (a : List Nat) (e : Nat) (h : v.inElem a e = true) :
@@ -35,5 +41,82 @@ theorem Var.inElem_eligible (v : Var) (a : List Nat) (e : Nat) (h : v.inElem a e
         exact List.mem_of_getElem? h
     | false =>
       simp [hm] at h
+
+end CrCube
+
+namespace CrCube
+
+/-- a side is well-formed for its variable: insertions (several addends, subtrahends) exist on
+    categorical dimensions only; on a multiple-response dimension a side is one item -/
+def Side.OK (sd : Side) (v : Var) : Prop := v.kind = .cat ∨ (∃ e, sd.add = [e] ∧ sd.sub = [])
+
+/-- addends and subtrahends of the side are disjoint (DESIGN N2) -/
+def Side.Disj (sd : Side) : Prop := ∀ e ∈ sd.add, e ∉ sd.sub
+
+instance (sd : Side) : Decidable sd.Disj := by unfold Side.Disj; infer_instance
+
+theorem Side.base_OK (e : Nat) (v : Var) : (Side.base e).OK v := Or.inr ⟨e, rfl, rfl⟩
+theorem Side.base_Disj (e : Nat) : (Side.base e).Disj := by intro x _; simp [Side.base]
+
+/-- on a categorical variable eligibility does not depend on the element -/
+theorem Var.eligibleFor_cat (v : Var) (h : v.kind = .cat) (a : List Nat) (e e' : Nat) :
+    v.eligibleFor a e = v.eligibleFor a e' := by
+  unfold Var.eligibleFor Var.specMem
+  simp only [h]
+  match a with
+  | [] => rfl
+  | [c] => rfl
+  | _ :: _ :: _ => rfl
+
+/-- a respondent belongs to at most one element of a categorical variable -/
+theorem Var.inElem_cat_unique (v : Var) (h : v.kind = .cat) (a : List Nat) (e e' : Nat)
+    (h1 : v.inElem a e = true) (h2 : v.inElem a e' = true) : e = e' := by
+  unfold Var.inElem Var.specMem at h1 h2
+  simp only [h] at h1 h2
+  match a, h1, h2 with
+  | [c], h1, h2 =>
+    simp only [Bool.false_eq_true, if_false, beq_iff_eq, Var.vpos] at h1 h2
+    have hn := validIdxs_nodup' v.catMissing
+    obtain ⟨he, h1'⟩ := List.getElem?_eq_some_iff.mp h1
+    obtain ⟨he', h2'⟩ := List.getElem?_eq_some_iff.mp h2
+    exact (List.Nodup.getElem_inj_iff hn).mp (h1'.trans h2'.symm)
+
+theorem Side.inAny_disj (sd : Side) (v : Var) (hok : sd.OK v) (hd : sd.Disj) (a : List Nat) :
+    ¬ (v.inAny a sd.add = true ∧ v.inAny a sd.sub = true) := by
+  rintro ⟨h1, h2⟩
+  rcases hok with hc | ⟨e, _, hs⟩
+  · unfold Var.inAny at h1 h2
+    simp only [List.any_eq_true] at h1 h2
+    obtain ⟨e, he, h1⟩ := h1
+    obtain ⟨e', he', h2⟩ := h2
+    have := v.inElem_cat_unique hc a e e' h1 h2
+    subst this
+    exact hd e he he'
+  · simp [hs, Var.inAny] at h2
+
+theorem Side.add_eligible (sd : Side) (v : Var) (hok : sd.OK v) (a : List Nat)
+    (h : v.inAny a sd.add = true) : sd.eligible v a = true := by
+  unfold Var.inAny at h
+  simp only [List.any_eq_true] at h
+  obtain ⟨e, he, h1⟩ := h
+  have h2 := v.inElem_eligible a e h1
+  unfold Side.eligible
+  rcases hok with hc | ⟨e0, ha, hs⟩
+  · rw [v.eligibleFor_cat hc a _ e]; exact h2
+  · rw [ha] at he
+    simp only [List.mem_singleton] at he
+    subst he
+    simpa [ha, hs] using h2
+
+theorem Side.sub_eligible (sd : Side) (v : Var) (hok : sd.OK v) (a : List Nat)
+    (h : v.inAny a sd.sub = true) : sd.eligible v a = true := by
+  unfold Var.inAny at h
+  simp only [List.any_eq_true] at h
+  obtain ⟨e, he, h1⟩ := h
+  have h2 := v.inElem_eligible a e h1
+  unfold Side.eligible
+  rcases hok with hc | ⟨e0, _, hs⟩
+  · rw [v.eligibleFor_cat hc a _ e]; exact h2
+  · simp [hs] at he
 
 end CrCube
